@@ -5,6 +5,7 @@ go 1.21
 require (
 	github.com/gogo/protobuf v1.1.2-0.20180914054005-e14cafb6a2c2
 	github.com/samsarahq/thunder v0.0.0
+	github.com/siddontang/go-mysql v0.0.0-20160925014134-d8e777f00cdb
 	vrt v0.0.0
 )
 
@@ -18,7 +19,6 @@ require (
 	github.com/samsarahq/go v0.0.0-20181026175739-13570df44b46 // indirect
 	github.com/satori/go.uuid v0.0.0-20160218235746-e673fdd4dea8 // indirect
 	github.com/siddontang/go v0.0.0-20161005110831-1e9ce2a5ac40 // indirect
-	github.com/siddontang/go-mysql v0.0.0-20160925014134-d8e777f00cdb // indirect
 	golang.org/x/net v0.0.0-20211216030914-fe4d6282115f // indirect
 	golang.org/x/sys v0.0.0-20210806184541-e5e7981a1069 // indirect
 	golang.org/x/text v0.3.7 // indirect
